@@ -24,11 +24,67 @@ struct Elt
     ll payload;
 };
 
+// Every array handed to an algorithm sits between two guard zones of sentinel
+// elements.  A comparator / predicate call that sees a sentinel is an
+// out-of-range read; a modified guard is an out-of-range write; both are
+// reported in the output line ("OOB-READ", "OOB-WRITE") instead of crashing.
+static constexpr ll sentinel_payload = -777777;
+static constexpr std::size_t num_guard = 64;
+static bool g_oob_read = false;
+
+static inline void note(Elt const& e)
+{
+    if (e.payload == sentinel_payload)
+        g_oob_read = true;
+}
+
+struct Guarded
+{
+    std::vector<Elt> buf;
+    std::size_t n;
+    explicit Guarded(std::vector<Elt> const& v) : buf(v.size() + 2 * num_guard), n(v.size())
+    {
+        for (std::size_t i = 0; i < buf.size(); ++i)
+            buf[i] = Elt{static_cast<ll>(i % 3), sentinel_payload};
+        std::copy(v.begin(), v.end(), buf.begin() + num_guard);
+        g_oob_read = false;
+    }
+    Elt* begin() { return buf.data() + num_guard; }
+    Elt* end() { return buf.data() + num_guard + n; }
+    std::vector<Elt> values() const
+    {
+        return std::vector<Elt>(buf.begin() + num_guard, buf.begin() + num_guard + n);
+    }
+    bool guards_intact() const
+    {
+        for (std::size_t i = 0; i < buf.size(); ++i)
+        {
+            if (i >= num_guard && i < num_guard + n)
+                continue;
+            if (buf[i].payload != sentinel_payload || buf[i].key != static_cast<ll>(i % 3))
+                return false;
+        }
+        return true;
+    }
+    // flags appended to the implementation part of the output line
+    void report(std::ostream& os, long returned = 0) const
+    {
+        if (g_oob_read)
+            os << " OOB-READ";
+        if (!guards_intact())
+            os << " OOB-WRITE";
+        if (returned < 0 || returned > static_cast<long>(n))
+            os << " OOB-RETURN";
+    }
+};
+
 struct Cmp
 {
     int id;
     bool operator()(Elt const& a, Elt const& b) const
     {
+        note(a);
+        note(b);
         switch (id)
         {
             case 1:
@@ -46,6 +102,7 @@ struct Pred
     int id;
     bool operator()(Elt const& a) const
     {
+        note(a);
         switch (id)
         {
             case 0:
@@ -157,26 +214,58 @@ int main()
             if (c == 3)
             {
                 // SimpleUnitTracker: sort indices by a distance table
-                std::vector<double> distance(v.size());
-                std::vector<size_type> isect(v.size());
-                for (std::size_t i = 0; i < v.size(); ++i)
+                std::size_t const n = v.size();
+                std::vector<double> distance(n + 1, 0.5);  // slot n: guard target
+                std::vector<size_type> buf(n + 2 * num_guard, static_cast<size_type>(n));
+                bool oob = false;
+                for (std::size_t i = 0; i < n; ++i)
                 {
                     distance[i] = static_cast<double>(v[i].key);
-                    isect[i] = static_cast<size_type>(i);
+                    buf[num_guard + i] = static_cast<size_type>(i);
                 }
-                celeritas::sort(isect.data(),
-                                isect.data() + isect.size(),
-                                [&distance](size_type a, size_type b) {
+                celeritas::sort(buf.data() + num_guard,
+                                buf.data() + num_guard + n,
+                                [&distance, &oob, n](size_type a, size_type b) {
+                                    if (a >= n || b >= n)
+                                    {
+                                        oob = true;
+                                        a = a >= n ? n : a;
+                                        b = b >= n ? n : b;
+                                    }
                                     return distance[a] < distance[b];
                                 });
                 std::vector<Elt> out;
-                for (auto i : isect)
-                    out.push_back(ref[i]);
+                for (std::size_t i = 0; i < n; ++i)
+                {
+                    size_type j = buf[num_guard + i];
+                    out.push_back(j < n ? ref[j] : Elt{-1, sentinel_payload});
+                }
                 v = out;
+                for (std::size_t i = 0; i < buf.size(); ++i)
+                    if ((i < num_guard || i >= num_guard + n) && buf[i] != n)
+                        oob = true;
+                if (oob)
+                {
+                    std::stable_sort(ref.begin(), ref.end(), Cmp{0});
+                    print_elts(os, v);
+                    os << " OOB-READ |";
+                    print_keys(os, ref);
+                    std::cout << os.str() << std::endl;
+                    continue;
+                }
             }
             else
             {
-                celeritas::sort(v.data(), v.data() + v.size(), Cmp{c});
+                Guarded g(v);
+                celeritas::sort(g.begin(), g.end(), Cmp{c});
+                v = g.values();
+                print_elts(os, v);
+                g.report(os);
+                os << " |";
+                std::stable_sort(ref.begin(), ref.end(), Cmp{c});
+                print_keys(os, ref);
+                std::cout << os.str() << std::endl;
+                continue;
             }
             std::stable_sort(ref.begin(), ref.end(), Cmp{c == 3 ? 0 : c});
             print_elts(os, v);
@@ -191,11 +280,13 @@ int main()
             auto v = read_elts(is);
             auto ref = v;
             Cmp comp{c};
-            celeritas::detail::partial_sort<Cmp&>(
-                v.data(), v.data() + mid, v.data() + v.size(), comp);
+            Guarded g(v);
+            celeritas::detail::partial_sort<Cmp&>(g.begin(), g.begin() + mid, g.end(), comp);
+            v = g.values();
+            print_elts(os, v);
+            g.report(os);
             std::partial_sort(ref.begin(), ref.begin() + mid, ref.end(), comp);
             ref.resize(mid);
-            print_elts(os, v);
             os << " |";
             print_keys(os, ref);
         }
@@ -205,10 +296,14 @@ int main()
             is >> p;
             auto v = read_elts(is);
             auto ref = v;
-            auto it = celeritas::partition(v.data(), v.data() + v.size(), Pred{p});
-            auto rit = std::partition(ref.begin(), ref.end(), Pred{p});
-            os << (it - v.data());
+            Guarded g(v);
+            auto it = celeritas::partition(g.begin(), g.end(), Pred{p});
+            long idx = static_cast<long>(it - g.begin());
+            v = g.values();
+            os << idx;
             print_elts(os, v);
+            g.report(os, idx);
+            auto rit = std::partition(ref.begin(), ref.end(), Pred{p});
             os << " | " << (rit - ref.begin());
         }
         else if (cmd == "lb" || cmd == "ub" || cmd == "lbl" || cmd == "fs")
@@ -218,28 +313,33 @@ int main()
             auto v = read_elts(is);
             Elt val;
             is >> val.key >> val.payload;
-            Elt const* b = v.data();
-            Elt const* e = v.data() + v.size();
+            Guarded g(v);
+            Elt const* b = g.begin();
+            Elt const* e = g.end();
             if (cmd == "lb")
             {
-                os << (celeritas::lower_bound(b, e, val, Cmp{c}) - b) << " | "
-                   << (std::lower_bound(b, e, val, Cmp{c}) - b);
+                os << (celeritas::lower_bound(b, e, val, Cmp{c}) - b);
+                g.report(os);
+                os << " | " << (std::lower_bound(b, e, val, Cmp{c}) - b);
             }
             else if (cmd == "ub")
             {
-                os << (celeritas::upper_bound(b, e, val, Cmp{c}) - b) << " | "
-                   << (std::upper_bound(b, e, val, Cmp{c}) - b);
+                os << (celeritas::upper_bound(b, e, val, Cmp{c}) - b);
+                g.report(os);
+                os << " | " << (std::upper_bound(b, e, val, Cmp{c}) - b);
             }
             else if (cmd == "lbl")
             {
-                os << (celeritas::lower_bound_linear(b, e, val, Cmp{c}) - b)
-                   << " | " << (std::lower_bound(b, e, val, Cmp{c}) - b);
+                os << (celeritas::lower_bound_linear(b, e, val, Cmp{c}) - b);
+                g.report(os);
+                os << " | " << (std::lower_bound(b, e, val, Cmp{c}) - b);
             }
             else
             {
+                os << (celeritas::find_sorted(b, e, val, Cmp{c}) - b);
+                g.report(os);
                 auto r = std::equal_range(b, e, val, Cmp{c});
-                os << (celeritas::find_sorted(b, e, val, Cmp{c}) - b) << " | "
-                   << ((r.first == r.second ? e : r.first) - b);
+                os << " | " << ((r.first == r.second ? e : r.first) - b);
             }
         }
         else if (cmd == "min")
@@ -247,10 +347,12 @@ int main()
             int c;
             is >> c;
             auto v = read_elts(is);
-            Elt const* b = v.data();
-            Elt const* e = v.data() + v.size();
-            os << (celeritas::min_element(b, e, Cmp{c}) - b) << " | "
-               << (std::min_element(b, e, Cmp{c}) - b);
+            Guarded g(v);
+            Elt const* b = g.begin();
+            Elt const* e = g.end();
+            os << (celeritas::min_element(b, e, Cmp{c}) - b);
+            g.report(os);
+            os << " | " << (std::min_element(b, e, Cmp{c}) - b);
         }
         else if (cmd == "allof" || cmd == "anyof")
         {
@@ -364,7 +466,7 @@ int main()
         {
             os << "unknown-command " << cmd;
         }
-        std::cout << os.str() << '\n';
+        std::cout << os.str() << std::endl;
     }
     return 0;
 }
